@@ -35,19 +35,19 @@ def longest_chain(fn: ast.AST, pred) -> Optional[ast.If]:
     return best
 
 
-def isinstance_classes(test: ast.AST, var: str) -> Optional[List[ast.AST]]:
-    """For `isinstance(var, X)` / `isinstance(var, (X, Y))` return [X, Y] nodes."""
+def isinstance_classes(test: ast.AST, var: Optional[str] = None) -> Optional[List[ast.AST]]:
+    """For `isinstance(var, X)` / `isinstance(var, (X, Y))` return [X, Y] nodes (var None: any plain name as subject)."""
     if isinstance(test, ast.Call) and isinstance(test.func, ast.Name) and test.func.id == 'isinstance' and len(test.args) == 2 \
-            and isinstance(test.args[0], ast.Name) and test.args[0].id == var:
+            and isinstance(test.args[0], ast.Name) and (var is None or test.args[0].id == var):
         t = test.args[1]
         return list(t.elts) if isinstance(t, ast.Tuple) else [t]
     return None
 
 
-def eq_const(test: ast.AST, var: str):
-    """For `var == 'c'` return 'c' (else None)."""
+def eq_const(test: ast.AST, var: Optional[str] = None):
+    """For `var == 'c'` return 'c' (else None); var None: any plain name as subject."""
     if isinstance(test, ast.Compare) and len(test.ops) == 1 and isinstance(test.ops[0], ast.Eq) and \
-            isinstance(test.left, ast.Name) and test.left.id == var and isinstance(test.comparators[0], ast.Constant):
+            isinstance(test.left, ast.Name) and (var is None or test.left.id == var) and isinstance(test.comparators[0], ast.Constant):
         return test.comparators[0].value
     return None
 
@@ -89,3 +89,12 @@ def attr_paths(node: ast.AST, root: str) -> List[Tuple[Tuple[str, ...], ast.AST]
                     cur = cur.value if not isinstance(cur, ast.Call) else cur.func
                 out.append((p, n))
     return out
+
+
+def test_subject(test: ast.AST) -> Optional[str]:
+    """the plain name an isinstance(...) / `name == const` test is about"""
+    if isinstance(test, ast.Call) and isinstance(test.func, ast.Name) and test.func.id == 'isinstance' and test.args and isinstance(test.args[0], ast.Name):
+        return test.args[0].id
+    if isinstance(test, ast.Compare) and isinstance(test.left, ast.Name):
+        return test.left.id
+    return None
